@@ -63,7 +63,27 @@ VARIANTS = [
     V("dtype-too-small", I,
       "max_dim + max_size + 1, n_items + 1), force_signed=True))",
       "max_dim + 1, n_items + 1), force_signed=True))", "fire", "D1.6"),
+    V("down-blocker-test-too-strict", E1,
+      "        if (packing[i0, IDX_RIGHT_X] > packing_i1_left_x) and \\\n",
+      "        if (packing[i0, IDX_RIGHT_X] > packing_i1_left_x + 1) and "
+      "\\\n", "fire", "D1.7"),
+    V("down-distance-to-bottom-of-blocker", E1,
+      "                packing_i1_bottom_y - packing[i0, IDX_TOP_Y]))",
+      "                packing_i1_bottom_y - packing[i0, IDX_BOTTOM_Y]))",
+      "fire", "D1.7"),
+    V("left-blocker-ignores-vertical-touch", E2,
+      "        elif (packing_i1_top_y > packing[i0, IDX_BOTTOM_Y]) \\\n"
+      "                and (packing_i1_bottom_y < packing[i0, IDX_TOP_Y]):",
+      "        elif (packing_i1_top_y > packing[i0, IDX_BOTTOM_Y] + 1) "
+      "\\\n"
+      "                and (packing_i1_bottom_y < packing[i0, IDX_TOP_Y]):",
+      "fire", "D1.7"),
     # silent
+    V("silent-more-blockers", E1,
+      "                (packing[i0, IDX_BOTTOM_Y] < packing_i1_top_y):",
+      "                (packing[i0, IDX_BOTTOM_Y] <= packing_i1_top_y):",
+      "silent", note="treating a flush lid as blocker only shortens moves: "
+                     "still feasible (the rule deviation is C14's)"),
     V("silent-stricter-fit", E2,
       "            if (y[i, IDX_RIGHT_X] <= bin_width) \\\n"
       "                    and (y[i, IDX_TOP_Y] <= bin_height):",
